@@ -381,6 +381,42 @@ func oracle(fail func(sig, detail string), ti txInfo, ids *idtab, pre, post []ac
 	}
 }
 
+// gasOracle: an execution must not get past its gas limit.  Embedded: the real gas counter is logged after every
+// environment call; a call that completed (anything but an out-of-gas / panic result) with the counter above the limit
+// getGasLimit granted ran unmetered -- whatever the receipt says afterwards (GasUsed is capped to the limit, so
+// GasUsed <= limit cannot see it; a limit of exactly 0 is the sharpest case).  Wasm: a successful execution must not report
+// more runtime gas than the limit handed to the runtime.
+func gasOracle(fail func(sig, detail string), ti txInfo, run *txRun, gl int64, ap applied, label string) {
+	if ap.err != "" || ap.rc == nil || gl < 0 {
+		return
+	}
+	if run.wasm {
+		if ap.rc.Success && run.rawGas > uint64(gl)*100 {
+			fail("C15:execution-beyond-gas-limit", fmt.Sprintf("%s: %s succeeded with runtime gas %d > limit %d*100", label, ti.Desc, run.rawGas, gl))
+		}
+		return
+	}
+	for _, e := range run.tr.evs {
+		f := strings.Fields(e.Res)
+		if len(f) == 0 || f[0] == "oog" || f[0] == "panic" {
+			continue
+		}
+		last := f[len(f)-1]
+		if !strings.HasPrefix(last, "g") {
+			continue
+		}
+		var g int64
+		if _, err := fmt.Sscan(last[1:], &g); err != nil {
+			continue
+		}
+		if g > gl {
+			fail("C15:execution-beyond-gas-limit", fmt.Sprintf("%s: %s (maxFee %s buys %d gas, receipt success=%v gasUsed=%d): environment call `%s` completed with the gas counter at %d",
+				label, ti.Desc, ti.Tx.MaxFeeOrZero(), gl, ap.rc.Success, ap.rc.GasUsed, e.Op, g))
+			return
+		}
+	}
+}
+
 // burnsOf: coins explicitly destroyed according to the recorded trace (BurnAll amounts, wasm Burn, the unrefunded
 // half of a terminated contract's stake). Only counted for envs whose effects reach the state.
 func burnsOf(tr *trace, pre []acct) *big.Int {
@@ -615,6 +651,7 @@ func (cc *caseCtx) oneShadow(A, B *appstate.AppState, hdr *types.Header, ti txIn
 	cc.account(ti, run, ap)
 	emit(c, "shadow", ti, run, ids, pre, post, ap, gl, txFee, fpg, n.Cfg.Consensus.EnableUpgrade11, nil)
 	oracle(cc.fail, ti, ids, pre, post, ap, txFee, fpg, burnsOf(run.tr, pre), "shadow")
+	gasOracle(cc.fail, ti, run, gl, ap, "shadow")
 	cc.g.applied(ti, ap, A)
 	c.Rep.Evaluations++
 	if ti.Desc == "deploy-wasm-wallet" && ap.rc != nil && ap.rc.Success {
@@ -827,6 +864,7 @@ func (cc *caseCtx) oneChain(snd *chainfx.Sender, ti txInfo, emptyGrowth *big.Int
 	burns := burnsOf(run.tr, pre)
 	if len(skip) == 0 {
 		oracle(cc.fail, ti, ids, pre, post, ap, txFee, fpg, burns, "chain")
+		gasOracle(cc.fail, ti, run, gl, ap, "chain")
 	}
 	// full-state oracle: nothing outside the touched set (and the proposer) changed; identities untouched
 	touched := map[common.Address]bool{god: true}
